@@ -4,7 +4,7 @@ import engine as E
 from props import filegen as FG, writegen as WG
 
 PROP = 'C16'
-MODULES = ['ZckModel.Props.C16']
+MODULES = ['ZckModel.Props.C16', 'ZckModel.Props.C16Term']
 ASSUMPTIONS = [
     "ZSTD_compress2 with fixed level/strategy is deterministic for one libzstd build (byte identity of zstd outputs is CHECKED on the real "
     "output across segmentations and repeated runs, not proved)",
